@@ -376,3 +376,46 @@ func VerifC39Jumps() {
 		}
 	}
 }
+
+// ---- jumps out of a pipeline whose producer is still running ----
+
+var runningPrograms = []struct {
+	text string
+	want string
+}{
+	{"function f39 { v39src -> foreach i { out p; JUMP; out q }; out r }\nf39; out s", ""},
+	{"function f39 { v39src -> foreach i { if { true } then { out p; JUMP; out q } }; out r }\nf39; out s", ""},
+	{"function f39 { v39src -> foreach i { v39src -> foreach j { out p; JUMP; out q } }; out r }\nf39; out s", ""},
+}
+
+// VerifC39Running: the jump (break <function>, return, return 0, return 3) is taken inside
+// `producer -> foreach { ... }` while the producer (a builtin that emits two items and then runs
+// until it is cancelled, like `yes` or a slow download) is still running: the function must end
+// there - nothing after the jump in it runs, the code after the call runs - and must not hang.
+// A second shape jumps out of an outer `while` the same way.
+func VerifC39Running() {
+	mx.Init()
+	lang.DefineFunction("v39src", func(p *lang.Process) error {
+		p.Stdout.SetDataType(types.String)
+		if _, err := p.Stdout.Write([]byte("1\n2\n")); err != nil {
+			return err
+		}
+		<-p.Context.Done()
+		return nil
+	}, types.String)
+	jump := []string{"break f39", "return", "return 0", "return 3"}[rt.Choice("jump", 4)]
+	var block, want string
+	if shape := rt.Choice("shape", len(runningPrograms)+1); shape < len(runningPrograms) {
+		block = strings.Replace(runningPrograms[shape].text, "JUMP", jump, 1)
+		want = "p\ns\n"
+	} else {
+		rt.Assume(jump == "break f39")
+		block = "$n=0; while { $n<1 } { $n=1; v39src -> foreach i { out p; break while; out q }; out r }; out s"
+		want = "p\ns\n"
+	}
+	rt.Note(block)
+	stdout, _, _, err := mx.Run(block)
+	rt.Assert(err == nil, "the program does not compile")
+	rt.Reach("running-returned")
+	rt.Assert(stdout == want, "a jump out of a pipeline with a running producer did not end exactly the named block")
+}
